@@ -1,2 +1,48 @@
-(* placeholder; theorems are added below *)
-From Hexital Require Import Base.Prelude.
+(* C20 - All ways of asking for a reading give the same answer. *)
+From Coq Require Import ZArith List String Bool.
+From Hexital Require Import Base.Prelude Base.Num Model.Manager Model.Candle Model.Readings Model.Engine
+  Model.Access Proofs.ListProofs Proofs.AccessProofs.
+Import ListNotations.
+Local Open Scope Z_scope.
+
+(* positive and negative indices address the same candle, for every name (plain or dotted) *)
+Theorem C20_negative_index_same_candle :
+  forall (O : NumOps) (st : list (cd (payload O))) (name : string) (i : Z),
+  0 <= i < zlen st -> reading O st name (i - zlen st) = reading O st name i.
+Proof. exact reading_neg. Qed.
+Print Assumptions C20_negative_index_same_candle.
+
+(* the lookup used by Hexital.reading and the analysis functions agrees with Indicator.reading
+   on every valid index, and answers None (never an exception) on an invalid one *)
+Theorem C20_reading_by_index_agrees :
+  forall (O : NumOps) (st : list (cd (payload O))) (name : string) (i : Z),
+  (valid_index i (zlen st) = true -> reading_by_index O st name i = reading O st name i) /\
+  (valid_index i (zlen st) = false -> reading_by_index O st name i = Ok VNone).
+Proof. intros. split; [apply reading_by_index_valid|apply reading_by_index_invalid]. Qed.
+Print Assumptions C20_reading_by_index_agrees.
+
+(* as_list is the column of readings: entry i = reading(name, i) = reading(name, i - len) *)
+Theorem C20_as_list_is_column :
+  forall (O : NumOps) (st : list (cd (payload O))) (name : string) (out : list (val O)) (i : Z),
+  0 <= i < zlen st -> as_list O st name = Ok out ->
+  exists v, nth_error out (Z.to_nat i) = Some v /\ reading O st name i = Ok v /\
+            reading O st name (i - zlen st) = Ok v.
+Proof. exact as_list_nth. Qed.
+Print Assumptions C20_as_list_is_column.
+
+(* has_reading is "the latest reading is not None": 0, 0.0 and False count as readings *)
+Theorem C20_has_reading_iff_latest_not_none :
+  forall (O : NumOps) (st : list (cd (payload O))) (name : string) c pre, st = pre ++ [c] ->
+  has_reading O st name = (v <- read_candle O c name ;; Ok (negb (is_none O v))).
+Proof. exact has_reading_spec. Qed.
+Print Assumptions C20_has_reading_iff_latest_not_none.
+
+(* reading_count is the number of trailing candles that hold a reading *)
+Theorem C20_reading_count_is_trailing_run :
+  forall (O : NumOps) (rv : list (cd (payload O))) (name : string) (n : Z),
+  count_trailing O rv name = Ok n ->
+  exists k, n = Z.of_nat k /\ (k <= List.length rv)%nat /\
+    (forall c, In c (firstn k rv) -> exists v, reading_by_candle O (p c) name = Ok v /\ is_none O v = false) /\
+    (forall c, nth_error rv k = Some c -> reading_by_candle O (p c) name = Ok VNone).
+Proof. exact reading_count_spec. Qed.
+Print Assumptions C20_reading_count_is_trailing_run.
